@@ -120,6 +120,8 @@ def run(ctx):
     ctx.require(six is not None and five is not None, 'internal 6-DOF / 5-DOF solvers')
     ctx.fn(six)
     ctx.fn(five)
+    ctx.rule('R01.8', 'constants of the solvers that stand for pi or 2*pi are exact (the reduction to [-pi, pi] and the wrist flips rely on them)')
+    util.pi_constants(ctx, 'R01.8', [six, five])
     full, xyz = gate_roles(ctx)
     ctx.require(len(full) >= 1 and len(xyz) >= 1, 'FK gate helpers (pose gate and position-only gate)')
     for b in full:
